@@ -87,6 +87,19 @@ def make_configs(r, n):
     # directed histories: an accepted step that inserts one object at several
     # places (the later copies must still be examined on their own), and a
     # mutator that only the last pass contains
+    # a command accepting exactly a history: variable elimination puts one
+    # object at several places; the only remaining accepted step rewrites the
+    # LAST copy
+    decl = '(declare-const x Int)\n(declare-const y Int)\n'
+    hist = [decl + '(assert (= x y))\n(assert (> (+ x x) (* x x)))\n',
+            decl + '(assert (= y y))\n(assert (> (+ y y) (* y y)))\n',
+            decl + '(assert (= y y))\n(assert (> (+ y y) (* y 0)))\n']
+    member = {'mode': 'member', 'members': [refreader.lex(t) for t in hist]}
+    for st, j in (('hierarchical', 1), ('hybrid', 2)):
+        out.append((hist[0], dict(member, delay_ms=1),
+                    ['--strategy', st, '-j', str(j)],
+                    {'strategy': st, 'jobs': j, 'n': f'H{st}',
+                     'mutopts': []}))
     for k, (text, spec, ms) in enumerate(DIRECTED):
         for st, j in (('hierarchical', 1), ('hybrid', 2)):
             out.append((text, dict(spec, delay_ms=1),
